@@ -27,6 +27,7 @@ def run_harness(exe, script_path, out_path, fill=0xA5, timeout=120, mem_gb=None,
     env = dict(os.environ)
     env["ASAN_OPTIONS"] = ASAN_ENV % fill
     env["UBSAN_OPTIONS"] = UBSAN_ENV
+    env["HARNESS_STACK_FILL"] = str(fill)
     if env_extra: env.update(env_extra)
     t = time.time()
     try:
